@@ -79,14 +79,14 @@ static void body(void) {
          * compressor takes per block (raw / RLE / compressed, new / repeated / no Huffman table, FSE table modes) meets every
          * predecessor.  Block size = the configuration's (1 KiB with the small windows; 128 KiB for the level-only entries,
          * which are run at three levels).  Types: 0 skewed bytes over [0,200)+{201}; 1 the same with 200 in place of 201;
-         * 2 skewed over [0,199); 3 uniform noise; 4 run of 'z'; 5 run of 0x00; 6 words; 7 skewed over [0,12); 8 back-to-back copies of earlier data followed by text over another alphabet. */
+         * 2 skewed over [0,199); 3 uniform noise; 4 run of 'z'; 5 run of 0x00; 6 words; 7 skewed over [0,12); 8 back-to-back copies of earlier data followed by text over another alphabet; 9 nearly incompressible literals over all byte values with a few matches. */
         size_t blk = (entry >= 2 && entry <= 5) ? 128 * 1024 : B;
         if (entry >= 2 && entry <= 5 && !(p.level == 1 || p.level == 3 || p.level == 7)) { vx_obs_u64(53); return; }
         /* block-size class for the parameter-vector entries: the configuration's own (1 KiB), or 8 KiB blocks with and without targetCBlockSize 1340 (sub-blocks) */
         int cls = (entry == 0 || entry >= 6) ? vx_choose(entry == 0 ? 4 : 3) : 0;      /* class 3: 128 KiB blocks with sub-blocks, second block = 50 KiB of literal-free copies then new text */
         if (cls == 3) { p.windowLog = 17; W = B = blk = 128 * 1024; p.targetCBlockSize = 1340; p.maxBlockSize = 0; }
         else if (cls) { p.windowLog = 13; W = 8192; B = 8192; blk = 8192; p.targetCBlockSize = cls == 2 ? 1340 : 0; if (p.maxBlockSize) p.maxBlockSize = 0; }
-        int nb = cls ? 2 : 2 + vx_choose(2), ty[3]; for (int i = 0; i < nb; i++) ty[i] = (cls == 3 && i == 1) ? 8 : vx_choose(9);
+        int nb = cls ? 2 : 2 + vx_choose(2), ty[3]; for (int i = 0; i < nb; i++) ty[i] = (cls == 3 && i == 1) ? 8 : vx_choose(10);
         static const int D0[] = {0, -1, 1}; int d0 = D0[vx_deviate(3)]; int tailKind = vx_deviate(3);   /* first block exactly / one short / one over; last block full, half, 300 bytes */
         size_t pos = 0; uint32_t sd = 77;
         for (int i = 0; i < nb; i++) {
@@ -102,12 +102,24 @@ static void body(void) {
                 case 5: q[k] = 0; break;
                 case 6: q[k] = (u8)("the block of words and the words of the block "[(k + (r & 3) * (k % 7 == 0)) % 47]); break;
                 case 7: q[k] = (u8)(v % 12); break;
+                case 9: q[k] = (k % 512 >= 448 && k >= 512) ? q[k - 300] : (u8)((r & 3) ? (r >> 2) & 0x3f : (r >> 2) & 0xff); break;      /* 9: all 256 byte values, 64 of them three times as likely (a Huffman table does not pay for itself, re-using one does), with a 64-byte match every 512 bytes */
                 default: q[k] = (u8)('A' + (v * 7 / 200 * 3 + (r & 1)) % 26); break;      /* 8: text over another alphabet; its first 2/5 are replaced below by back-to-back 64-byte copies of earlier data (sequences without literals) */
                 } }
             if (ty[i] == 8 && pos >= 256) for (size_t j = 0; (j + 1) * 64 <= len * 2 / 5; j++) memcpy(q + j * 64, g_src + pos - 256 + (j * 29) % 190, 64);
             pos += len;
         }
         n = pos; snprintf(sdesc, sizeof sdesc, "blocks %d%d%c first%+d tail%d blk=%zu cls%d", ty[0], ty[1], nb == 3 ? '0' + ty[2] : '-', d0, tailKind, blk, cls);
+    } else if (!strcmp(g_set, "litband")) {
+        /* literal-entropy sweep: block A has Huffman-friendly literals over a small alphabet; blocks B and C share one nearly flat distribution over all 256 byte
+         * values (a fraction h/40 of the bytes comes from 64 hot values) plus a few matches.  Sweeping h moves the Huffman gain of B / C across the thresholds
+         * "worth a new table", "worth only with a re-used table", "not worth it", for three block sizes. */
+        int h = vx_choose(41), bs = vx_choose(3); static const size_t BS[] = {4096, 8192, 32768}; size_t blk = BS[bs]; uint32_t sd = 91;
+        if (entry >= 2 && !(p.level == 1 || p.level == 3 || p.level == 7 || p.level == 13 || p.level == 19)) { vx_obs_u64(54); return; }
+        if (entry == 0 || entry == 1) { p.windowLog = bs == 0 ? 12 : bs == 1 ? 13 : 15; W = (size_t)1 << p.windowLog; p.maxBlockSize = 0; p.targetCBlockSize = 0; }
+        else { vx_obs_u64(55); return; }      /* the block size is set through the window: parameter-vector entries only */
+        for (int b = 0; b < 3; b++) for (size_t k = 0; k < blk; k++) { sd = sd * 1103515245u + 12345u; unsigned r = (sd >> 8) & 0xffff, v = r % 200; v = v * v / 200 * v / 200;
+            g_src[n] = b == 0 ? (u8)v : (k % 512 >= 448 && k >= 512) ? g_src[n - 300] : (u8)(((r >> 10) % 40 < (unsigned)h) ? (r & 0x3f) : (r & 0xff)); n++; }
+        snprintf(sdesc, sizeof sdesc, "litband hot=%d/40 blk=%zu", h, blk);
     } else if (!strcmp(g_set, "lens")) {
         /* every input length 0..L in three textures (checksum / content-size bookkeeping is per length, not per content) */
         int L = (int)vx_opt_int("--L", 200); int len = vx_choose(L + 1), tex = vx_choose(3);
